@@ -1,7 +1,7 @@
 #!/bin/sh
 # usage: tools_seed_run.sh [seed-dir ...]   — applies each seeded change to /repo, runs the property's quick check, reverts.
 cd /verif
-[ $# -eq 0 ] && set -- seeded/*
+[ $# -eq 0 ] && set -- seeded/C*
 if [ -n "$(git -C /repo status --porcelain)" ]; then echo "REFUSING: /repo has uncommitted changes"; exit 2; fi
 for d in "$@"; do
   d=${d%/}
